@@ -83,7 +83,7 @@ class Unsupported(Exception):
     pass
 
 
-def ev_ctf(expr, env, rho, m, node_of):
+def ev_ctf(expr, env, rho, m, node_of, env_subscripts=frozenset()):
     """Value of an ID*/IDC* expression: unmarked children read the outcome environment env, value marks and
     intervention subscripts read the literal environment rho; a Sum binds its variable in both."""
     from y0.dsl import CounterfactualVariable, Fraction, One, Probability, Product, Sum, Zero
@@ -95,7 +95,11 @@ def ev_ctf(expr, env, rho, m, node_of):
             do = {}
             if isinstance(c, CounterfactualVariable):
                 for iv in c.interventions:
-                    do[node_of[iv.name]] = val_of(iv.star, iv.name, rho)
+                    # factorisation reading: an unmarked subscript naming an outcome or summed variable takes that variable's value
+                    if not iv.star and iv.name in env_subscripts:
+                        do[node_of[iv.name]] = env[iv.name]
+                    else:
+                        do[node_of[iv.name]] = val_of(iv.star, iv.name, rho)
             v = env[c.name] if c.star is None else val_of(c.star, c.name, rho)
             evs.append((do, node_of[c.name], v))
         return m.prob(evs)
@@ -104,18 +108,18 @@ def ev_ctf(expr, env, rho, m, node_of):
         tot = Fr(0)
         for vals in itt.product(range(2), repeat=len(rs)):
             upd = dict(zip(rs, vals))
-            tot += ev_ctf(expr.expression, {**env, **upd}, {**rho, **upd}, m, node_of)
+            tot += ev_ctf(expr.expression, {**env, **upd}, {**rho, **upd}, m, node_of, env_subscripts | set(rs))
         return tot
     if isinstance(expr, Product):
         p = Fr(1)
         for e in expr.expressions:
-            p *= ev_ctf(e, env, rho, m, node_of)
+            p *= ev_ctf(e, env, rho, m, node_of, env_subscripts)
         return p
     if isinstance(expr, Fraction):
-        d = ev_ctf(expr.denominator, env, rho, m, node_of)
+        d = ev_ctf(expr.denominator, env, rho, m, node_of, env_subscripts)
         if d == 0:
             raise ZeroDivisionError
-        return ev_ctf(expr.numerator, env, rho, m, node_of) / d
+        return ev_ctf(expr.numerator, env, rho, m, node_of, env_subscripts) / d
     if isinstance(expr, One):
         return Fr(1)
     if isinstance(expr, Zero):
